@@ -48,12 +48,14 @@ def get_shape_memo():
 
 def set_shape_memo(single_memo, variadic_memo, pytree_memo, arg_memo) -> None:
     if _has_shape_memo():
-        _shape_storage.memo_stack[-1] = (
-            single_memo,
-            variadic_memo,
-            pytree_memo,
-            arg_memo,
-        )
+        # Restore in-place: the dictionaries on the stack may be referenced elsewhere
+        # (in particular they are used to report the current bindings in error
+        # messages), so they must remain the live ones.
+        new_memos = (single_memo, variadic_memo, pytree_memo, arg_memo)
+        for memo, new_memo in zip(_shape_storage.memo_stack[-1], new_memos):
+            if memo is not new_memo:
+                memo.clear()
+                memo.update(new_memo)
 
 
 def push_shape_memo(arguments: dict[str, Any]):
